@@ -45,7 +45,9 @@ COMPONENTS_STUB = ["zarr sync()/loop thread/thread pool -> SimLoop", "LocalStore
                    "os.walk / list_dir order (seeded)", "tempfile location (sandbox)"]
 EXPECTED_PROBES = ["skip_name_at_depth_ge2", "skip_name_absent", "skip_name_is_array",
                    "skip_name_is_group", "skip_name_is_path_attr", "type_skip_subclass_hit",
-                   "skip_name_repeated_across_levels", "skip_as_bare_string", "type_skip_removed"]
+                   "skip_name_repeated_across_levels", "skip_as_bare_string", "type_skip_removed",
+                   "one_object_under_two_names", "shared_object_skipped_under_one_name_only",
+                   "third_generation", "empty_skip_argument"]
 
 LEAF_KINDS = ["int", "float", "bool", "none", "str", "path", "list", "tuple", "dict", "set", "nd",
               "npscalar", "tensor", "module", "numseq"]
@@ -56,7 +58,9 @@ TYPE_POOL = ["ndarray", "Tensor", "list", "tuple", "dict", "set", "str", "int", 
              "Mapping", "Sequence", "AbcSet", "Number", "Integral", "Real", "PathLike", "Sized",
              "generic", "floating", "Node@2", "Inner@2", "NoneType"]
 C14_NAMES = ["a", "b", "c", "data", "_p", "x1", "info", "child", "p", "arr", "t", "k-1", "a.b",
-             "ab", "arr2", "_p_", ".h", "fa", "A", "_a"]
+             "ab", "arr2", "_p_", ".h", "fa", "A", "_a",
+             # not in Unicode normal form (NFC/NFKC folding would change them), with their folded twins
+             "\u00b5_abs", "\u03bc_abs", "\u212b_px", "\u00c5_px", "cafe\u0301", "caf\u00e9", "\ufb01le"]
 
 
 def _types(names):
@@ -117,7 +121,7 @@ def _attr_names(spec, depth=0, out=None):
 
 def gen(rng: Rng, tier, i):
     opts = {"kinds": rng.subset(LEAF_KINDS, 0.6, 3), "regime": "tiny", "maxdepth": 2, "nodes": 20}
-    g = graphs.sanitize(_gen_tree(rng.fork("tree"), opts, 0, rng.pick([1, 2, 3])))
+    g = graphs.sanitize(_gen_tree(rng.fork("tree"), opts, 0, rng.pick([1, 2, 3, 3, 4, 5])))
     names = _attr_names(g)
     present = sorted({n for n, _, _ in names})
     r = rng.fork("skip")
@@ -131,7 +135,22 @@ def gen(rng: Rng, tier, i):
     T = r.subset(TYPE_POOL, p=0.2, at_least=1)
     form = r.pick(["list", "tuple", "bare" if len(S) == 1 else "list", "set"])
     store = rng.pick(["zip", "dir"])
+    x = rng.fork("extra")
+    # the SAME object reachable under two root attribute names (one of which may be skipped)
+    alias = None
+    roots = [n for n, s_ in g["attrs"] if s_["k"] in ("obj", "nd", "list", "dict", "tensor")]
+    if roots and g["cls"] != "AttrsLike" and x.chance(0.25):
+        new = x.pick([n for n in C14_NAMES + ["twin"] if n not in {a for a, _ in g["attrs"]}])
+        alias = [x.pick(roots), new]
+        if x.chance(0.5) and new not in S:
+            S = S + [new]
+            S2 = S2 + [new]
     return {"graph": g, "S": S, "S1": S1, "S2": S2, "T": T, "form": form, "store": store,
+            "alias": alias,
+            # how the load-time list is spelled, repeated entries, empty skip arguments, generations
+            "load_form": x.pick(["same", "same", "list", "tuple", "set", "frozenset", "dict_keys"]),
+            "dups": x.chance(0.2), "empty_skip": x.pick([None, None, "list", "tuple", "str", "set"]),
+            "gens": x.pick([2, 2, 3]),
             "mix_types_into_names": r.chance(0.15), "h5_second": r.chance(0.3),
             "level": rng.pick([None, 0, 4, 9]),
             "env": serio.gen_env(rng.fork("env"))}
@@ -170,8 +189,22 @@ def prune(obj, paths):
     return obj
 
 
-def _skip_arg(names, form, types=()):
+def _build(plan):
+    o = graphs.build(plan["graph"])
+    al = plan.get("alias")
+    if al and al[0] in vars(o) and al[1] not in vars(o):
+        o.__dict__[al[1]] = o.__dict__[al[0]]      # one object, two names
+    return o
+
+
+def _skip_arg(names, form, types=(), dups=False):
     lst = list(names) + list(types)
+    if dups and lst:
+        lst = lst + [lst[0]] + lst[-1:]
+    if form == "frozenset" and not types:
+        return frozenset(lst)
+    if form == "dict_keys" and not types:
+        return dict.fromkeys(lst).keys()
     if form == "bare" and len(lst) == 1:
         return lst[0]
     if form == "tuple":
@@ -211,7 +244,11 @@ def run(plan):
         bump(res["probes"], "skip_as_bare_string")
     with serio.SerEnv(plan["env"]) as E:
         kw = {"store": store, "compression_level": plan["level"]}
-        orig = graphs.build(spec)
+        orig = _build(plan)
+        if plan.get("alias") and plan["alias"][1] in vars(orig):
+            bump(res["probes"], "one_object_under_two_names")
+            if (plan["alias"][0] in S) != (plan["alias"][1] in S):
+                bump(res["probes"], "shared_object_skipped_under_one_name_only")
         rp_names = removed_paths(orig, set(S), [])
         rp_types = removed_paths(orig, set(), T)
         if rp_types:
@@ -224,8 +261,8 @@ def run(plan):
         del orig
 
         def do(tag, save_skip, load_skip, name, second=False, types_at_save=()):
-            obj = graphs.build(spec)
-            sk = _skip_arg(save_skip, plan["form"], types_at_save)
+            obj = _build(plan)
+            sk = _skip_arg(save_skip, plan["form"], types_at_save, dups=plan.get("dups", False))
             _, exc, _ = E.save(obj, E.path(name + ext), mode="w", skip=sk, **kw) if (
                 save_skip or types_at_save) else E.save(obj, E.path(name + ext), mode="w", **kw)
             del obj
@@ -234,7 +271,9 @@ def run(plan):
                     "op_raised", f"{tag}: save(skip={sk!r}) raised {exc!r}",
                     f"op_raised:save:{type(exc).__name__}"))
                 return None
-            lsk = _skip_arg(load_skip, plan["form"])
+            lf = plan.get("load_form", "same")
+            lsk = _skip_arg(load_skip, plan["form"] if lf == "same" else lf,
+                            dups=plan.get("dups", False))
             got, exc, _ = E.load(E.path(name + ext), skip=lsk) if load_skip else E.load(
                 E.path(name + ext))
             if exc is not None:
@@ -242,15 +281,17 @@ def run(plan):
                     "op_raised", f"{tag}: load(skip={lsk!r}) raised {exc!r}",
                     f"op_raised:load:{type(exc).__name__}"))
                 return None
-            if second:
-                _, exc, _ = E.save(got, E.path(name + "g2" + ext), mode="w", **kw)
+            for gen_no in range(2, (plan.get("gens", 2) if second else 1) + 1):
+                _, exc, _ = E.save(got, E.path(f"{name}g{gen_no}{ext}"), mode="w", **kw)
                 if exc is None:
-                    got, exc, _ = E.load(E.path(name + "g2" + ext))
+                    got, exc, _ = E.load(E.path(f"{name}g{gen_no}{ext}"))
                 if exc is not None:
                     res["violations"].append(Violation(
-                        "op_raised", f"{tag}: second generation raised {exc!r}",
+                        "op_raised", f"{tag}: generation {gen_no} raised {exc!r}",
                         f"op_raised:gen2:{type(exc).__name__}"))
                     return None
+                if gen_no == 3:
+                    bump(res["probes"], "third_generation")
             return got
 
         r0 = do("H0", [], [], "h0")
@@ -272,6 +313,23 @@ def run(plan):
                     oracle, f"{tag} S={S} T={plan['T']}: {[tuple(x) for x in d[:4]]}",
                     f"{oracle}:{graphs.diff_sig(d)}"))
 
+        # an EMPTY skip argument (list / tuple / '' / set) is no skipping at all
+        es = plan.get("empty_skip")
+        if es:
+            bump(res["probes"], "empty_skip_argument")
+            empty = {"list": [], "tuple": (), "str": "", "set": set()}[es]
+            obj = _build(plan)
+            _, exc, _ = E.save(obj, E.path("h0e" + ext), mode="w", skip=empty, **kw)
+            del obj
+            got = None
+            if exc is None:
+                got, exc, _ = E.load(E.path("h0e" + ext), skip=empty if es != "str" else [])
+            if exc is not None:
+                res["violations"].append(Violation(
+                    "op_raised", f"H0e: save/load with skip={empty!r} raised {exc!r}",
+                    f"op_raised:empty_skip:{type(exc).__name__}"))
+            else:
+                check("H0e save(skip=<empty>);load(skip=<empty>)", "empty_skip_not_neutral", got, [])
         h1 = do("H1", S, [], "h1")
         check("H1 save(skip=S);load()", "skip_at_save", h1, rp_names)
         h2 = do("H2", [], S, "h2")
@@ -294,7 +352,7 @@ def run(plan):
             h4 = do("H4", S, [], "h4", second=True)
             check("H4 save(skip=S);load();save();load()", "skip_generation", h4, rp_names)
         tys = T
-        orig5 = graphs.build(spec)
+        orig5 = _build(plan)
         both = removed_paths(orig5, set(S) if plan.get("mix_types_into_names") else set(), T)
         # an attrs-style object that lost a field (by name or by type) cannot be saved again
         attrs_lost_field = any(
@@ -350,6 +408,10 @@ def shrink(plan):
         p = copy.deepcopy(plan)
         p["mix_types_into_names"] = False
         yield p
+    for key, plain in (("alias", None), ("load_form", "same"), ("dups", False), ("empty_skip", None),
+                       ("gens", 2)):
+        if plan.get(key) not in (None, plain):
+            yield {**copy.deepcopy(plan), key: plain}
     if plan["form"] != "list":
         p = copy.deepcopy(plan)
         p["form"] = "list"
